@@ -306,11 +306,13 @@ Qed.
 (* ==== wave 7: RegionCreator's bookkeeping and cleanup_regions ================================================== *)
 From PV Require Import model.DfxpClean proofs.Pos12RegionFacts proofs.Pos12CleanFacts.
 
-(* equal layouts get the same region - in any table (dict.get under coherent == / hash, C18) *)
-Theorem C12_region_equal_layouts_share : forall m a b, layout_eqb a b = true ->
+(* congruence lemma about the model's lookup (List.find keyed on layout_eqb; there is no hash in the model of _region_map:
+   that dict.get behaves like this rests on C18's eq/hash theorems and on execution): equal layouts get the same region in
+   any table.  Auxiliary (_unfold), not a property theorem. *)
+Theorem C12_region_lookup_respects_eq_unfold : forall m a b, layout_eqb a b = true ->
   region_lookup m (Some a) = region_lookup m (Some b).
 Proof. exact region_lookup_compat. Qed.
-Print Assumptions C12_region_equal_layouts_share.
+Print Assumptions C12_region_lookup_respects_eq_unfold.
 
 (* layouts of the caption set that need a region share one EXACTLY when they are equal: deduplication is complete
    (equal layouts never get two regions) and sound (different layouts never land in one region, the default included) *)
@@ -324,11 +326,12 @@ Theorem C12_region_keys_pairwise_different : forall ls, ldistinct (map fst (regi
 Proof. exact region_map_keys_distinct. Qed.
 Print Assumptions C12_region_keys_pairwise_different.
 
-(* ... the ids are r0, r1, ..., r(n-1) in creation order without gap or repetition, then the default region ... *)
-Theorem C12_region_ids_sequential : forall ls,
+(* ... the ids are r0, r1, ..., r(n-1) in creation order without gap or repetition, then the default region (read off the
+   definition of number_regions; the real ids are compared up to renaming only: auxiliary, _unfold) ... *)
+Theorem C12_region_ids_sequential_unfold : forall ls,
   map snd (region_map ls) = map (fun n => RId (Z.of_nat n)) (seq 0 (length (created_keys ls))) ++ [RDefault].
 Proof. exact region_map_ids. Qed.
-Print Assumptions C12_region_ids_sequential.
+Print Assumptions C12_region_ids_sequential_unfold.
 
 (* ... and every created region comes from a layout that occurs in the caption set, has some positioning part and is
    not the default region *)
@@ -355,13 +358,14 @@ Theorem C12_written_region_ids_unique : forall g s id a b,
 Proof. exact clean_region_ids_unique. Qed.
 Print Assumptions C12_written_region_ids_unique.
 
-(* the tree-level round trip on the document AS WRITTEN (region table, body, cleanup): same statement as
-   C12_dfxp_layout_roundtrip, now about write_doc_clean - the model request 1211 compares with the real document *)
-Theorem C12_dfxp_layout_roundtrip_written : forall langs, Forall opt_nonneg (set_layouts (map to_dlang langs)) ->
+(* COROLLARY (one rewrite with C12_cleanup_keeps_readback from C12_dfxp_layout_roundtrip; not a separate result): the
+   tree-level round trip on the document AS WRITTEN (region table, body, cleanup) - the document request 1211 compares with
+   the real one *)
+Theorem C12_dfxp_layout_roundtrip_written_corollary : forall langs, Forall opt_nonneg (set_layouts (map to_dlang langs)) ->
   Forall lang_harmless langs ->
   exists obs, dfxp_roundtrip_clean None (map to_dlang langs) = Ok obs /\ Forall2 lang_rel obs langs.
 Proof. exact dfxp_layout_roundtrip_clean. Qed.
-Print Assumptions C12_dfxp_layout_roundtrip_written.
+Print Assumptions C12_dfxp_layout_roundtrip_written_corollary.
 
 (* region table of [A; A written as 2/4; B; the default region; a BREAK-node layout C]: A and its twin share r0, the
    default region gets no new region; in the document a region nobody refers to (C, carried by a break node only) is
@@ -466,10 +470,10 @@ Theorem C12_text_align_precedence :
 Proof. exact (conj own_attribute_wins (conj first_style_wins (conj nearest_parent_wins region_is_last))). Qed.
 Print Assumptions C12_text_align_precedence.
 
-(* written elements, PARTIAL: per element, not yet composed with the tree walk of C12_dfxp_layout_roundtrip_written (the
+(* written elements, PARTIAL: per element, not yet composed with the tree walk of C12_dfxp_layout_roundtrip_written_corollary (the
    full statement: for every caption set with caption / node styles carrying text-align, every word of
    read (write set) has horizontal alignment = the nearest text-align of its <span> / <p>, else its layout's; vertical
-   alignment and origin / extent / padding as in C12_dfxp_layout_roundtrip_written).
+   alignment and origin / extent / padding as in C12_dfxp_layout_roundtrip_written_corollary).
    Proved: (a) an element with no text-align on itself and its parents reads back the alignment of the layout its region
    was made from, absent parts start / after - the hypothesis-free case of the tree theorem; (b) an element for which the
    lookup finds the name of t - own attribute from the caption style / style node, a style class, or the nearest styled
@@ -496,7 +500,7 @@ Example C12_ex_style_alignment :
 Proof. vm_compute. repeat split; repeat constructor. Qed.
 
 (* the link to the tree theorem: on an element without style-carried text-align (itself and its parents) the style-aware
-   scraper gives exactly the alignment of read_region of the element's region - C12_dfxp_layout_roundtrip_written is the
+   scraper gives exactly the alignment of read_region of the element's region - C12_dfxp_layout_roundtrip_written_corollary is the
    style-free instance of the style-aware reader; with a style in charge the two differ in the horizontal member only *)
 From PV Require Import proofs.Pos12StyleLinkFacts.
 Theorem C12_plain_element_is_read_region : forall e parents l r, plain e -> Forall plain parents ->
